@@ -28,6 +28,9 @@ def cases(seed, tier):
         c["random_V"] = False
         if i % 2 == 0:
             c["force"] = sorted(set((c["force"] or []) + ["discrete"]))
+        if i % 4 == 0:
+            # fully discrete decision problem with (binding) constraints on discrete choices
+            c["force"] = sorted(set([x for x in c["force"] if x not in ("cont2", "flatc")] + ["nocc", "constraint"]))
     return cs
 
 
